@@ -358,6 +358,10 @@ def gen_start_invalid(rnd, idx, tier):
              "tuning %d %d %d" % (BIGSIZE, BIG, BIG), "storedelay %d" % rnd.choice([3, 10, 10]), "watchdog %d" % 1000000]
     if rnd.random() < 0.5:
         lines.append("stagger %d" % rnd.choice([1, 7]))
+    if rnd.random() < 0.6:
+        # clean-ups of the lock table while a request is still inside Start after it destroyed the presented session:
+        # the entry of the held id must survive them (nothing is stale, the table is far below its size limit)
+        lines.append("purges %d %d" % (rnd.choice([2, 4, 8]), rnd.choice([1, 2, 5])))
     return Scenario("inv%05d" % idx, "concurrent-start-invalid", lines, mode="start", timing=False,
                     expect={"reqs": reqs, "others": 0, "invalid": True})
 
